@@ -48,10 +48,15 @@ TinyClauses(r) ==
 \* ------------------------------------------------------- reference comparison
 AllLe(s, b)  == \A i \in 1..Len(s) : s[i] <= b
 RefClauses(r) ==
-    LET wf == \A f \in {"method", "side", "vt", "n", "cond", "err", "it", "nref", "nexc", "nnan"} : Has(r, f)
+    LET wf == \A f \in {"method", "side", "vt", "n", "cond", "err", "it", "nref", "nexc", "nnan",
+                         "errA", "errB", "nref2", "rexc", "rnan"} : Has(r, f)
     IN  <<  <<"wellformed", wf>>,
             <<"an-iterate-for-every-k", wf => (r.nexc = 0 /\ r.nnan = 0 /\ Len(r.err) = r.nref)>>,
             <<"iterates=reference", wf => AllLe(r.err, (-RefBoundNeg) + r.cond)>>,
+            \* one solver object used for every k and for two systems in turn: errA = the system above,
+            \* errB = a second right-hand side and initial guess (own reference run)
+            <<"reused-object-an-iterate-for-every-k", wf => (r.rexc = 0 /\ r.rnan = 0 /\ Len(r.errA) = r.nref2 /\ Len(r.errB) = r.nref2)>>,
+            <<"reused-object-iterates=reference", wf => (AllLe(r.errA, (-RefBoundNeg) + r.cond) /\ AllLe(r.errB, (-RefBoundNeg) + r.cond))>>,
             <<"maxiter-honoured", wf => \A i \in 1..Len(r.it) : r.it[i] <= i>> >>
 
 CgClauses(r) ==
